@@ -167,12 +167,14 @@ SCENARIOS = {
 # scenarios explored with TWO preemptions at shared-state accesses; value: ordered pairs for the quick tier (None = all pairs)
 TWO_PREEMPTIONS = {
     "S2": None,
-    "S5": None,
+    "S5": [(a, b) for a in ("GZ*k1", "GZ*k2", "GZ.scale", "GZ.to_affine", "GZ.mul_add(P)", "P.mul_add(GZ)", "GZ.to_bytes", "GZ==G")
+           for b in ("GZ.scale", "GZ.to_affine", "GZ*k1", "GZ.mul_add(P)")],
     "S1": [("G.to_bytes", "G*k1"), ("G==P", "G*k1"), ("G*k1", "G.to_bytes")],
-    "S6": [("GZ*k1", "GZ*k2"), ("GZ*k1", "GZ.scale"), ("GZ.scale", "GZ*k1"), ("GZ*k1", "GZ.to_affine"), ("GZ.scale", "GZ.to_affine"),
+    "S6": [("GZ*k1", "GZ.scale"), ("GZ.scale", "GZ*k1"), ("GZ*k1", "GZ.to_affine"), ("GZ.scale", "GZ.to_affine"),
            ("GZ==G", "GZ.scale")],
     "S4": [("P.mul_add(Q)", "Q.mul_add(P)"), ("P+Q", "P.mul_add(Q)"), ("P.mul_add(Q)", "P+Q")],
 }
+QUICK_NO_OPCODE = ("S4", "S6")      # opcode-level preemption of these scenarios only in the thorough tier (S1, S2, S5 keep it)
 CHUNK_POINTS = 48
 _CACHE = {}
 
@@ -387,7 +389,7 @@ def cases(ctx):
             for c in range(0, len(idx), CHUNK_POINTS):
                 yield ("curve", name, a, b, c, skipped if c == 0 else 0)
             # opcode-level preemption inside the methods that read or publish shared point state (splits multi-load lines)
-            if SCENARIOS[name][0] == "small" or not ctx.quick:
+            if (SCENARIOS[name][0] == "small" and name not in QUICK_NO_OPCODE) or not ctx.quick:
                 idx2, _ = points_for(ctx, name, a, "opcode")
                 for c in range(0, len(idx2), CHUNK_POINTS):
                     yield ("curve-op", name, a, b, c, 0)
